@@ -70,6 +70,13 @@ def templates():
         ("split-duplicate", "TUCD", lambda n: f"from {q(n['T'])} | join {q(n['U'])} (==k) | select {{{q(n['T'])}.{q(n['C'])}, {q(n['T'])}.{q(n['D'])}, {q(n['U'])}.{q(n['D'])}}} | "
                                               f"take 5 | filter {q(n['C'])} != 'zz'",
          lambda n: [[tag(n['T'], n['C'], i), tag(n['T'], n['D'], i), tag(n['U'], n['D'], i)] for i in R], False),
+        # the same split with the user's column AFTER the duplicated name, taken from either side
+        ("split-duplicate-after-right", "TUCD", lambda n: f"from {q(n['T'])} | join {q(n['U'])} (==k) | select {{{q(n['T'])}.{q(n['D'])}, {q(n['U'])}.{q(n['D'])}, {q(n['U'])}.{q(n['C'])}}} | "
+                                              f"take 5 | filter {q(n['C'])} != 'zz'",
+         lambda n: [[tag(n['T'], n['D'], i), tag(n['U'], n['D'], i), tag(n['U'], n['C'], i)] for i in R], False),
+        ("split-duplicate-after-left", "TUCD", lambda n: f"from {q(n['T'])} | join {q(n['U'])} (==k) | select {{{q(n['T'])}.{q(n['D'])}, {q(n['U'])}.{q(n['D'])}, {q(n['T'])}.{q(n['C'])}}} | "
+                                              f"take 5 | filter {q(n['C'])} != 'zz'",
+         lambda n: [[tag(n['T'], n['D'], i), tag(n['U'], n['D'], i), tag(n['T'], n['C'], i)] for i in R], False),
         ("aggregate", "TCA", lambda n: f"from {q(n['T'])} | group {{{q(n['C'])}}} (aggregate {{{q(n['A'])} = count this}})",
          lambda n: [[tag(n['T'], n['C'], i), 1] for i in R], False),
         ("table-alias", "TCA", lambda n: f"from {q(n['A'])} = {q(n['T'])} | select {{{q(n['A'])}.{q(n['C'])}}}",
@@ -270,14 +277,15 @@ def suite_oracle(ctx, br, progs, con, stats, dialects, label):
                 fid = bad[0]
             elif renamed:
                 fid = "extern-table-renamed-by-assign-names"
-            elif tid == "split-duplicate" and (re.fullmatch(r"_expr_\d+", names["C"]) or re.fullmatch(r"_expr_\d+", names["D"])):
+            elif tid.startswith("split-") and (re.fullmatch(r"_expr_\d+", names["C"]) or re.fullmatch(r"_expr_\d+", names["D"])):
                 fid = "split-regenerated-name-not-rechecked"
             elif any(re.fullmatch(r"_expr_\d+", names[p_]) and re.search(r" AS " + names[p_] + r"\b", sql + " ") is None and names[p_] + "." in sql
                      for p_ in "TU" if p_ in tid_positions(tid)):
                 fid = "dedup-conflates-qualifier-and-alias"
             stats["fail"][("sqlite", tid, fid)] += 1
             ctx.oracle_failure(fid, f"{tid}: names bind to the wrong objects or the statement fails: {err or str(got)[:160]}",
-                               {"prql": src, "dialect": "sqlite", "sql": sql, "expected": want, "observed": got if got is not None else err})
+                               {"prql": src, "dialect": "sqlite", "sql": sql, "expected": want, "observed": got if got is not None else err},
+                               det_key=(src,) if sum(1 for p_, v_ in names.items() if PLAIN.get(p_) != v_) <= 1 else None)
         elif renamed:
             ctx.disagreement("assign_names", "the model predicts that an extern table is renamed but the result is right", {"prql": src, "sql": sql, "renamed": renamed})
     ctx.obligation(f"correspondence[{label}]: identifier text in the emitted SQL = Model.Names.emitIdent", nbad_text == 0, f"{len(progs)} programs")
